@@ -1,5 +1,6 @@
 import YtkModel.Wire
 import YtkModel.Equal
+import YtkDriver.HeapWire
 open Lean
 
 namespace Ytk.C05
@@ -12,6 +13,12 @@ def handle : Wire.Handler := fun op a => do
     pure (Json.mkObj [("xy", .bool (equals x y)), ("yx", .bool (equals y x)),
       ("xx", .bool (equals x x)), ("same", .bool (sameAs x y)),
       ("cx", Wire.nodeToJson (clone x)), ("xcx", .bool (equals x (clone x)))])
+  | "heapClone" =>
+    -- explicit heap + root address: Clone at pointer level (YtkModel/Heap.lean)
+    let h ← HeapWire.getHeap a
+    let x ← Wire.getNat a "x"
+    HeapWire.result a h [x] (Heap.clone h x)
+      [("writes", "afterOrigWrites"), ("writes2", "afterCloneWrites")] false
   | _ => throw s!"C05: unknown op {op}"
 
 end Ytk.C05
